@@ -328,6 +328,17 @@ fn gen_opts(rng: &mut Rng, snaps: &[Snap], focus: Option<usize>) -> Opts {
         let k = rng.below(9) as usize;
         let (j, s) = rand_span(rng);
         within[k] = (j, Some(s));
+    } else if rng.chance(1, 3) && snaps.len() > 1 {
+        // a span that ends exactly at (or one second off) a snapshot: the edge of "within" (time + span > newest)
+        let k = rng.below(9) as usize;
+        let latest = snaps.iter().map(|s| s.t.local - s.t.off).max().unwrap();
+        let s0 = rng.pick(snaps);
+        let d = latest - (s0.t.local - s0.t.off) + rng.range(-1, 1);
+        if d > 0 {
+            let (h, mi, sec) = (d / 3600, (d % 3600) / 60, d % 60);
+            let sp = Span::new().hours(h).minutes(mi).seconds(sec);
+            within[k] = (json!({"set":true,"y":0,"mo":0,"w":0,"d":0,"h":h,"mi":mi,"s":sec}), Some(sp));
+        }
     }
     let mut keep_ids = Vec::new();
     if rng.chance(1, 8) {
